@@ -431,6 +431,25 @@ def make_pedestal_image(rng, integer_ok=True):
     return img, mask, ped, sig
 
 
+def make_galaxy_image(rng):
+    """Bright elliptical galaxy (exponential profile, peak ~20000, scale length 35-55 px) + sky + noise on a
+    ~150 x 165 frame, integer-valued in [0, 32500]: exactly representable in every precision variant, and bright
+    enough that the pixel SUM over one area-integration sector at sma 45-60 exceeds the int16 and uint16 ranges."""
+    ny, nx = int(rng.integers(145, 160)), int(rng.integers(160, 176))
+    x0, y0 = nx / 2.0 + float(rng.uniform(-4, 4)), ny / 2.0 + float(rng.uniform(-4, 4))
+    eps, pa = float(rng.uniform(0.1, 0.45)), float(rng.uniform(0.0, np.pi))
+    h = float(rng.uniform(35.0, 55.0))
+    yy, xx = np.mgrid[0:ny, 0:nx].astype(float)
+    ct, st = np.cos(pa), np.sin(pa)
+    u = (xx - x0) * ct + (yy - y0) * st
+    v = -(xx - x0) * st + (yy - y0) * ct
+    r = np.hypot(u, v / (1.0 - eps))
+    img = float(rng.uniform(17000, 21000)) * np.exp(-r / h) + float(rng.uniform(100, 600)) \
+        + rng.normal(0.0, float(rng.uniform(5, 30)), (ny, nx))
+    img = np.clip(np.rint(img), 0, 32500)
+    return img, dict(x0=x0, y0=y0, eps=eps, pa=pa)
+
+
 def scene_digest_arrays(scene):
     return [scene['data'].v, scene['mask'].v, scene['segm'].v]
 
